@@ -403,7 +403,8 @@ def run(ck, F):
                             ck.ok("R1", key, ev.site, "identifier hole: case-normalised, keyword-safe and guarded", fn=fnshort)
                     elif ctx in ("doc_comment", "line_comment"):
                         sdesc = og.nf_str(CE.expand(nf))
-                        ok = tr == "debug" or "lines(" in sdesc or ("split(" in sdesc and "\\r" in sdesc and "\\n" in sdesc) or _split_on_both(nf)
+                        # `str::lines` ends a line at \n and \r\n only: a bare carriage return stays inside the line, so it does not count
+                        ok = tr == "debug" or ("split(" in sdesc and "\\r" in sdesc and "\\n" in sdesc) or _split_on_both(nf)
                         if ok:
                             ck.ok("R1", key, ev.site, "comment text is split on both line terminators / Debug-escaped", fn=fnshort)
                         else:
